@@ -66,22 +66,28 @@ Proof. exact proc_repl_param. Qed.
 Print Assumptions param_substitution_cases.
 
 (* (2) "Before being substituted, each argument's preprocessing tokens are completely macro replaced as if they
-   formed the rest of the preprocessing file; no other preprocessing tokens are available": when the expansion of
-   an argument is asked for (T_BOA arg T_EOA on the input), the loop does on it exactly what it does on a file
-   consisting of the argument alone -- independently of the tokens after the argument, of the output so far and
-   of the calls that are active -- and what reaches the call's repl_buffer at the T_EOA is the output of that
-   isolated run.  (Hypotheses: the isolated run ends, with no call left open and no T_BOA left over.) *)
+   formed the rest of the preprocessing file; no other preprocessing tokens are available": for every table and
+   every argument (a token list without markers), when the expansion of the argument is asked for (T_BOA arg T_EOA
+   on the input) and the loop run on the argument ALONE, as if it were the file, reaches its end, then the loop
+   does on it exactly those iterations -- independently of the tokens after the argument, of the output so far and
+   of the calls that are open -- and what reaches the call's repl_buffer at the T_EOA is the output of that run. *)
 Theorem arg_fully_expanded_before_substitution : forall q d fuel arg ig sF rest out0 mc cs nl0,
+  table_clean d -> clean arg -> NoDup ig ->
   run_end q d fuel (mkst arg [] [] ig false) = Some sF ->
-  calls sF = [] -> ~ In TBoa (out sF) ->
   exists n,
     steps q d (S n) (mkst (TBoa :: arg ++ TEoa :: rest) out0 (mc :: cs) ig nl0)
     = Some (mkst (TEoa :: rest) (out sF ++ TBoa :: out0) (mc :: cs) (ign sF) (nl sF))
     /\ step q d (mkst (TEoa :: rest) (out sF ++ TBoa :: out0) (mc :: cs) (ign sF) (nl sF))
        = run_repl q rest out0 (mkmc (mc_name mc) (mc_params mc) (mc_prev mc) (mc_rest mc) (mc_args mc)
                                     (add_tokens (mc_buf mc) (rev (out sF)))) cs (ign sF).
-Proof. exact arg_expanded_in_isolation. Qed.
+Proof. exact arg_expanded_in_isolation_full. Qed.
 Print Assumptions arg_fully_expanded_before_substitution.
+
+(* an isolated run that ends, ends complete: no call is left open and no T_BOA is left over *)
+Theorem isolated_run_ends_complete : forall ig0 q d fuel s sF, table_clean d -> inv ig0 s ->
+  run_end q d fuel s = Some sF -> calls sF = [] /\ ~ In TBoa (out sF).
+Proof. exact run_end_complete. Qed.
+Print Assumptions isolated_run_ends_complete.
 
 (* The painting discipline, for every state the loop can reach from a text without markers, for every table:
    ignore_p is set exactly for the macros whose replacement is being rescanned, no macro twice, hence at most as
